@@ -43,8 +43,17 @@ EXAMPLES = {"quick": 8, "thorough": 120}
 MIN_NONTRIVIAL = {"quick": 30, "thorough": 250}
 CASE_TIMEOUT = 120
 
-FMTS = list("BHIQbhiqx") + list("BHIQbhiqx") + ["3B", "3H", "2I", "5B",
-                                                     "3b", "2h"]
+FMTS = list("BHIQbhiqx") + list("BHIQbhiqx") + [
+    "3B", "3H", "2I", "5B", "3b", "2h",
+    # several members of different size: the native layout has padding
+    "BI", "HQ", "BH", "bq"]
+
+
+def letters(f):
+    """the struct letters of a multi-element format"""
+    if f[0].isdigit():
+        return [f[-1]] * int(f[:-1])
+    return list(f)
 
 
 def effective(classes, bases):
@@ -78,11 +87,13 @@ def case_strategy(draw):
     def val(f):
         if f == "x":
             return draw(st.integers(-10**9, 10**9)) / 100000
-        lo, hi = dsl.fmt_range(f[-1])
-        one = st.sampled_from([lo, hi, 0, 1]) | st.integers(lo, hi)
+        def one(ch):
+            lo, hi = dsl.fmt_range(ch)
+            return draw(st.sampled_from([lo, hi, 0, 1])
+                        | st.integers(lo, hi))
         if len(f) > 1:
-            return [draw(one) for _ in range(int(f[:-1]))]
-        return draw(one)
+            return [one(ch) for ch in letters(f)]
+        return one(f)
 
     def phase():
         out = []
@@ -91,7 +102,9 @@ def case_strategy(draw):
                 out.append([i, k, val(eff[insts[i]][k])])
         return out
     return {"classes": classes, "bases": bases, "insts": insts,
-            "parent": phase(), "child": phase()}
+            "parent": phase(), "child": phase(),
+            # the devices were part of a plain (slow) sync group before
+            "veteran": draw(st.booleans())}
 
 
 def strategy(tier):
@@ -151,6 +164,13 @@ def run_case(case):
         devs = [getattr(mod, f"Dev{c}")() for c in insts]
         ec = ParallelEtherCat("verif")
         ec.get_fmmu_addr = lambda: 0x1000
+        if case.get("veteran"):
+            from ebpfcat.ebpfcat import SyncGroup
+            try:
+                SyncGroup(ec, devs)
+            except Exception as e:
+                return fail(f"creating a plain group raised "
+                            f"{type(e).__name__}: {e}", bucket="create")
         try:
             sg = ProcessSyncGroup(ec, devs)
         except Exception as e:
